@@ -5,6 +5,7 @@ from __future__ import annotations
 import asyncio
 import gc
 import json
+import sys
 
 from vlib import core, l3
 from vlib.modelcheck import ModelCheck
@@ -17,8 +18,11 @@ KINDS = ["state", "event", "time", "service"]
 STATE_EXPR = "pyscript.e1 == '1' or pyscript.e1.old == '9' or pyscript.e1.a == 5 or pyscript.e2 == '7'"
 
 
-def fn_src(ctx, name, gen, kinds, extra, indent=""):
+def fn_src(ctx, name, gen, kinds, extra, indent="", service_first=False):
     L = []
+    svc = f"{indent}@service('pyscript.{ctx.split('.')[1]}_{name}')"
+    if "service" in kinds and service_first:
+        L.append(svc)
     if "state" in kinds:
         L.append(f'{indent}@state_trigger("{STATE_EXPR}")')
     if "event" in kinds:
@@ -28,8 +32,10 @@ def fn_src(ctx, name, gen, kinds, extra, indent=""):
         L.append(f"{indent}@time_trigger({', '.join(specs)})")
     elif extra:
         L.append(f"{indent}@time_trigger({', '.join(repr(x) for x in extra)})")
-    if "service" in kinds:
-        L.append(f"{indent}@service('pyscript.{ctx.split('.')[1]}_{name}')")
+    if "service" in kinds and not service_first:
+        L.append(svc)
+    if "shared" in kinds:
+        L.append(f"{indent}@service('pyscript.shared_svc')")
     L.append(f"{indent}def {name}(trigger_type=None, trigger_time=None, **kw):")
     L.append(f"{indent}    vrec('run', {ctx!r}, {name!r}, {gen}, trigger_type, str(trigger_time) if trigger_time in ('startup', 'shutdown') else None)")
     return "\n".join(L)
@@ -50,27 +56,62 @@ def gen(R):
     ops = []
     g = 0
     nctx = R.int(1, 2)
+    shared = {}  # (ctx, fn) -> holds the shared service name
     for _ in range(R.int(3, 14)):
         ctx = R.choice(CTXS[:nctx])
-        k = R.weighted([(6, "define"), (2, "del"), (1, "rebind"), (3, "cont_add"), (2, "cont_remove"), (1, "reload"), (1, "reload_fast"), (1, "delete_file"),
+        k = R.weighted([(6, "define"), (2, "define_race"), (2, "del"), (1, "rebind"), (3, "cont_add"), (2, "cont_remove"), (1, "reload"), (1, "reload_fast"), (2, "load_race"), (1, "delete_file"),
                         (4, "occ_state"), (4, "occ_event"), (3, "occ_time"), (2, "occ_service")])
         if k == "define":
             g += 1
             kinds = [x for x in KINDS if R.bool()] or ["event"]
             extra = R.choice([[], [], ["startup"], ["shutdown"], ["startup", "shutdown"]])
-            ops.append({"op": "define", "ctx": ctx, "fn": R.choice(FNS), "gen": g, "kinds": kinds, "extra": extra})
+            fn = R.choice(FNS)
+            if R.bool(1, 4):
+                holders = {key for key, v in shared.items() if v}
+                if any(key[0] != ctx for key in holders):
+                    # a declaration of a name another context owns is rejected; it carries nothing else, because what
+                    # happens to the other triggers of a rejected function is not specified
+                    kinds, extra = ["shared"], []
+                else:
+                    kinds = kinds + ["shared"]
+            shared[(ctx, fn)] = "shared" in kinds and not any(key[0] != ctx and v for key, v in shared.items())
+            ops.append({"op": "define", "ctx": ctx, "fn": fn, "gen": g, "kinds": kinds, "extra": extra})
+        elif k == "define_race":
+            g += 1
+            kinds = sorted({"service", R.choice(["state", "event", "time"])} | {x for x in KINDS if R.bool(1, 3)}, key=KINDS.index)
+            fn = R.choice(FNS)
+            shared[(ctx, fn)] = False
+            ops.append({"op": "define_race", "ctx": ctx, "fn": fn, "gen": g, "kinds": kinds, "extra": [], "yields": R.int(0, 8)})
         elif k in ("del", "rebind"):
-            ops.append({"op": k, "ctx": ctx, "fn": R.choice(FNS)})
+            fn = R.choice(FNS)
+            shared[(ctx, fn)] = False
+            ops.append({"op": k, "ctx": ctx, "fn": fn})
         elif k == "cont_add":
             g += 1
             ops.append({"op": "cont_add", "ctx": ctx, "where": R.choice(["lst", "dct_k1", "dct_k2"]), "gen": g})
         elif k == "cont_remove":
             ops.append({"op": "cont_remove", "ctx": ctx, "how": R.choice(["pop", "del_k1", "clear_lst", "clear_dct"])})
         elif k in ("reload", "reload_fast"):
+            for key in list(shared):
+                if key[0] == ctx:
+                    shared[key] = False
             g += 2
             kinds = [x for x in KINDS if R.bool()] or ["state"]
             ops.append({"op": k, "ctx": ctx, "gen": g, "kinds": kinds, "extra": R.choice([[], ["startup"], ["shutdown"]]) if k == "reload" else []})
+        elif k == "load_race":
+            # the file is (re)loaded with one function whose @service comes first; while its triggers are still being
+            # started (the service description lookup is suspended) the function is removed again
+            for key in list(shared):
+                if key[0] == ctx:
+                    shared[key] = False
+            g += 2
+            kinds = sorted({"service", R.choice(["state", "event", "time"])} | {x for x in KINDS if R.bool(1, 3)}, key=KINDS.index)
+            ops.append({"op": "load_race", "ctx": ctx, "gen": g, "kinds": kinds, "then": R.choice(["del", "delete_file", "reload", "rebind"]),
+                        "yields": R.int(0, 6), "suspend": R.choice([R.int(4, 30), 60, 100, 200, 300])})
         elif k == "delete_file":
+            for key in list(shared):
+                if key[0] == ctx:
+                    shared[key] = False
             ops.append({"op": "delete_file", "ctx": ctx})
         else:
             ops.append({"op": k})
@@ -84,6 +125,7 @@ class Model:
         self.lst = {c: [] for c in CTXS}
         self.dct = {c: {} for c in CTXS}
         self.loaded = {c: True for c in CTXS}
+        self.shared_ok = set()  # (ctx, fn, gen) whose declaration of the contested service name was accepted
 
     def live(self):
         out = []
@@ -106,6 +148,23 @@ async def execute(case):
     for c in CTXS[: case["nctx"]]:
         files[f"{c.split('.')[1]}.py"] = f"CTX = {c!r}\n" + FACTORY
     async with l3.Integ(files, legacy=case["legacy"], initial_states={"pyscript.e1": ("0", {"a": 1}), "pyscript.e2": ("0", {})}) as it:
+        # the harness owns the schedule: State.get_service_params() (awaited while a @service decorator starts) really
+        # suspends in production whenever service descriptions have to be loaded; here it suspends for a generated
+        # number of loop iterations during the define/delete race
+        orig_gsp = State.get_service_params.__func__
+        suspend = {"n": 0}
+
+        async def slow_get_service_params(cls):
+            # only the lookup made while a @service decorator starts is held back (a reload's own lookup is not)
+            fr, from_service = sys._getframe(1), False
+            while fr is not None and not from_service:
+                from_service = fr.f_code.co_filename.endswith("decorators/service.py")
+                fr = fr.f_back
+            for _ in range(suspend["n"] if from_service else 0):
+                await asyncio.sleep(0)
+            return await orig_gsp(cls)
+
+        State.get_service_params = classmethod(slow_get_service_params)
         m = Model()
         for c in CTXS[case["nctx"]:]:
             m.loaded[c] = False
@@ -130,19 +189,41 @@ async def execute(case):
             step = {"i": i, "op": op["op"]}
             exp_runs = []
             k = op["op"]
-            if k in ("define", "del", "rebind", "cont_add", "cont_remove"):
+            if k in ("define", "define_race", "del", "rebind", "cont_add", "cont_remove"):
                 ctx = op["ctx"]
                 if not m.loaded[ctx]:
                     continue
             if k == "define":
                 old = m.funcs[ctx].get(op["fn"])
-                exc = await run_in(ctx, fn_src(ctx, op["fn"], op["gen"], op["kinds"], op["extra"]))
+                exc = await run_in(ctx, fn_src(ctx, op["fn"], op["gen"], op["kinds"], op["extra"], service_first=op["gen"] % 2 == 0))
                 if old and "shutdown" in old["extra"]:
                     exp_runs.append([ctx, op["fn"], old["gen"], "time", "shutdown"])
                 if "startup" in op["extra"]:
                     exp_runs.append([ctx, op["fn"], op["gen"], "time", "startup"])
                 m.funcs[ctx][op["fn"]] = {"gen": op["gen"], "kinds": op["kinds"], "extra": op["extra"]}
                 m.bound[ctx].add(op["fn"])
+                if "shared" in op["kinds"]:
+                    # the first context that declared the name keeps it while one of its functions still declares it; a
+                    # declaration from another context is rejected when it is made and does not come to life later
+                    live_now = {(c, n, g_) for (c, n, g_, kinds, extra) in m.live()}
+                    if all(h[0] == ctx for h in m.shared_ok & live_now):
+                        m.shared_ok.add((ctx, op["fn"], op["gen"]))
+            elif k == "define_race":
+                # the definition is evaluated in its own task (its triggers are being started, @service first) and the
+                # name is deleted from a second task a few loop iterations later
+                old = m.funcs[ctx].pop(op["fn"], None)
+                suspend["n"] = 6
+                t1 = asyncio.get_running_loop().create_task(run_in(ctx, fn_src(ctx, op["fn"], op["gen"], op["kinds"], [], service_first=True)))
+                for _ in range(op["yields"]):
+                    await asyncio.sleep(0)
+                await run_in(ctx, f"try:\n    del {op['fn']}\nexcept NameError:\n    pass")
+                await t1
+                suspend["n"] = 0
+                await it.settle(1)
+                await run_in(ctx, f"try:\n    del {op['fn']}\nexcept NameError:\n    pass")
+                m.bound[ctx].discard(op["fn"])
+                if old and "shutdown" in old["extra"]:
+                    exp_runs.append([ctx, op["fn"], old["gen"], "time", "shutdown"])
             elif k in ("del", "rebind"):
                 old = m.funcs[ctx].pop(op["fn"], None)
                 exc = await run_in(ctx, f"del {op['fn']}" if k == "del" else f"{op['fn']} = 5")
@@ -192,7 +273,7 @@ async def execute(case):
                 if k == "reload_fast":
                     # first version of the file, reload requested but not awaited: its triggers are still starting
                     # when the second reload replaces it
-                    src0 = f"CTX = {ctx!r}\n" + FACTORY + "\n" + fn_src(ctx, "f1", op["gen"] - 1, op["kinds"], []) + "\n"
+                    src0 = f"CTX = {ctx!r}\n" + FACTORY + "\n" + fn_src(ctx, "f1", op["gen"] - 1, op["kinds"], [], service_first=True) + "\n"
                     with open(path, "w") as fh:
                         fh.write(src0)
                     os.utime(path, (1_700_000_000 + 10 * i, 1_700_000_000 + 10 * i))
@@ -200,7 +281,7 @@ async def execute(case):
                     for _ in range(op["gen"] % 4):
                         await asyncio.sleep(0)
                 if k in ("reload", "reload_fast"):
-                    src = f"CTX = {ctx!r}\n" + FACTORY + "\n" + fn_src(ctx, "f1", op["gen"], op["kinds"], op["extra"]) + "\n"
+                    src = f"CTX = {ctx!r}\n" + FACTORY + "\n" + fn_src(ctx, "f1", op["gen"], op["kinds"], op["extra"], service_first=op["gen"] % 4 < 2) + "\n"
                     with open(path, "w") as fh:
                         fh.write(src)
                     os.utime(path, (1_700_000_005 + 10 * i, 1_700_000_005 + 10 * i))
@@ -218,6 +299,44 @@ async def execute(case):
                 m.lst[ctx] = []
                 m.dct[ctx] = {}
                 await it.reload()
+            elif k == "load_race":
+                import os
+
+                ctx = op["ctx"]
+                path = f"{it.dir}/pyscript/{ctx.split('.')[1]}.py"
+                for n, f in m.funcs[ctx].items():
+                    if "shutdown" in f["extra"]:
+                        exp_runs.append([ctx, n, f["gen"], "time", "shutdown"])
+                with open(path, "w") as fh:
+                    fh.write(f"CTX = {ctx!r}\n" + FACTORY + "\n" + fn_src(ctx, "f1", op["gen"] - 1, op["kinds"], [], service_first=True) + "\n")
+                os.utime(path, (1_700_000_000 + 10 * i, 1_700_000_000 + 10 * i))
+                suspend["n"] = op["suspend"]
+                await it.hass.services.async_call("pyscript", "reload", {}, blocking=True)
+                for _ in range(op["yields"]):
+                    await asyncio.sleep(0)
+                m.lst[ctx] = []
+                m.dct[ctx] = {}
+                m.loaded[ctx] = True
+                m.funcs[ctx] = {}
+                m.bound[ctx] = set()
+                if op["then"] in ("del", "rebind"):
+                    await run_in(ctx, "del f1" if op["then"] == "del" else "f1 = 5")
+                    if op["then"] == "rebind":
+                        m.bound[ctx] = {"f1"}
+                elif op["then"] == "delete_file":
+                    os.unlink(path)
+                    m.loaded[ctx] = False
+                    await it.hass.services.async_call("pyscript", "reload", {}, blocking=True)
+                else:
+                    with open(path, "w") as fh:
+                        fh.write(f"CTX = {ctx!r}\n" + FACTORY + "\n" + fn_src(ctx, "f1", op["gen"], op["kinds"], [], service_first=True) + "\n")
+                    os.utime(path, (1_700_000_005 + 10 * i, 1_700_000_005 + 10 * i))
+                    m.funcs[ctx] = {"f1": {"gen": op["gen"], "kinds": op["kinds"], "extra": []}}
+                    m.bound[ctx] = {"f1"}
+                    await it.hass.services.async_call("pyscript", "reload", {}, blocking=True)
+                for _ in range(op["suspend"] + 5):
+                    await asyncio.sleep(0)
+                suspend["n"] = 0
             if k.startswith("occ") or True:
                 gc.collect()
                 await it.settle(2)
@@ -267,7 +386,11 @@ async def execute(case):
             bus = it.hass.bus.async_listeners().get("ev1", 0)
             ev_q = len(Event.notify.get("ev1", ()))
             svc_exp = sorted(f"{c.split('.')[1]}_{n}" for (c, n, g_, kinds, extra) in live if "service" in kinds)
-            svc_obs = sorted(s for s in it.hass.services.async_services().get("pyscript", {}) if s[:2] in ("a_", "b_"))
+            m.shared_ok &= {(c, n, g_) for (c, n, g_, kinds, extra) in live}
+            if m.shared_ok:
+                svc_exp.append("shared_svc")
+            svc_exp = sorted(svc_exp)
+            svc_obs = sorted(s for s in it.hass.services.async_services().get("pyscript", {}) if s[:2] in ("a_", "b_") or s == "shared_svc")
             res_exp = {"q_e1": n_state, "q_e2": n_state, "event": n_event, "services": svc_exp}
             res_obs = {"q_e1": q_e1, "q_e2": q_e2, "event": (ev_q if case["legacy"] else bus), "services": svc_obs}
             if case["legacy"] and (bus > 1 or (bus == 0) != (ev_q == 0)):
@@ -295,6 +418,7 @@ async def execute(case):
             "task2cb": len(Function.task2cb),
         }
         errs = [e[2][-160:] for e in it.errors()]
+        State.get_service_params = classmethod(orig_gsp)
     problem = next((s["problem"] for s in trace if "problem" in s), None)
     where = next((s["i"] for s in trace if "problem" in s), None)
     if problem is None and shutdown_obs != shutdown_exp:
@@ -344,7 +468,7 @@ class C09(ModelCheck):
         seen_deact = False
         nt = False
         for o in case["ops"]:
-            if o["op"] in ("define", "del", "rebind", "cont_remove", "reload", "reload_fast", "delete_file"):
+            if o["op"] in ("define", "define_race", "del", "rebind", "cont_remove", "reload", "reload_fast", "load_race", "delete_file"):
                 seen_deact = True
             elif o["op"].startswith("occ") and seen_deact:
                 nt = True
